@@ -85,6 +85,11 @@ def library(n_small=2, n_big=3):
     out.append(_d("sx0g", [S("sc", "scatter", ["in"], ["el", "sz"]), S("ex", "exec", ["el"], ["ex"]),
                            S("ga", "gather", ["ex", "sz"], ["out"])],
                   {"in": [L([])]}, ["out"], {"scatter-gather", "jobs", "empty-scatter", "deploy-lag"}))
+    # a job step with two inputs, one of them produced by another job step: the inputs of one tag arrive in different rounds
+    # when the upstream jobs finish out of order
+    out.append(_d("sfx2", [S("sc", "scatter", ["in"], ["el", "sz"]), S("f", "fwd", ["el"], ["a"]), S("q", "exec", ["el"], ["b"]),
+                           S("r", "exec", ["a", "b"], ["c"]), S("ga", "gather", ["c", "sz"], ["out"])],
+                  {"in": [L([1, 5])]}, ["out"], {"scatter-gather", "jobs", "multi-input", "misaligned-rounds"}))
     # bindings with several targets: one DeployStep / connector port per target, every ScheduleStep reads them all
     out.append(dict(_d("xx2t", [S("e1", "exec", ["in"], ["p1"]), S("e2", "exec", ["p1"], ["out"])], {"in": [V(1)]}, ["out"],
                        {"jobs", "pipeline", "multi-target"}), targets=2))
